@@ -1277,6 +1277,16 @@ impl Server {
         false
     }
 
+    /// The connection is being returned without having been cleaned up:
+    /// it is still inside a transaction or COPY, has unread data, or carries
+    /// session state that should have been reset. It cannot be given to another client.
+    pub fn is_unclean(&self) -> bool {
+        self.in_transaction
+            || self.in_copy_mode
+            || self.data_available
+            || (self.cleanup_connections && self.cleanup_state.needs_cleanup())
+    }
+
     /// Get server startup information to forward it to the client.
     pub fn server_parameters(&self) -> ServerParameters {
         self.server_parameters.clone()
